@@ -3,13 +3,13 @@ import re
 from .. import adevhist, ndevhist, core, machist, macstage, lw
 
 ID = "C07"
-THEOREMS = ["C07_reject_is_identity", "C07_oversized_only_ends_the_window", "C07_invalid_join_accept_is_identity",
+THEOREMS = ["C07_rejected_frame_keeps_the_downlink_queue", "C07_reject_is_identity", "C07_oversized_only_ends_the_window", "C07_invalid_join_accept_is_identity",
             "C07_async_window_rejected_frame_is_timeout", "C07_async_rxc_rejected_frame_is_skipped", "C07_nb_rejected_frame_keeps_the_window_open", "C07_rejection_premise_met"]
 
 
-def rejected_frame(rng, net, kept):
-    """a frame the reference codec rejects by construction"""
-    k = rng.below(7)
+def rejected_frame(rng, net, kept, with_port=False):
+    """a frame the reference codec rejects by construction (with_port: prefer the kinds that parse as data frames carrying an FPort)"""
+    k = rng.below(7) if not with_port else rng.choice([1, 2, 4, 1, 2])
     if k == 0:
         b = bytearray(rng.bytes(rng.range(0, 40)))
         if len(b) >= 12 and rng.chance(1, 2):
@@ -36,7 +36,7 @@ def rejected_frame(rng, net, kept):
     return rng.bytes(5)
 
 
-def twin_pair(rng, region, length, classc):
+def twin_pair(rng, region, length, classc, keep=False):
     """(base history, same history with rejected frames inserted at receive opportunities, positions of the base ops in the twin)"""
     net = machist.Net(rng, region)
     if rng.chance(1, 2):
@@ -66,16 +66,21 @@ def twin_pair(rng, region, length, classc):
             both(op)
         net.ops = []
         # receive opportunities of this uplink: inserted rejected frames (twin only)
-        for _ in range(rng.below(3)):
-            twin.append("rx %s %d 250" % (core.hexs(rejected_frame(rng, net, kept)), rng.range(0, 20) - 10))
-        k = rng.below(4)
+        for _ in range(rng.below(3) if not keep else rng.range(1, 2)):
+            twin.append("rx %s %d 250" % (core.hexs(rejected_frame(rng, net, kept, with_port=keep)), rng.range(0, 20) - 10))
+        k = rng.below(4) if not keep else 0
         if k <= 1:
             cmds = b""
             if rng.chance(2, 3):
                 cmds = rng.choice([machist.rx_timing(rng.below(16)), machist.rx_param_setup(rng.below(4), rng.below(6), machist.FREQ_OK[region]),
                                    machist.dl_channel(rng.below(3), machist.FREQ_OK[region]), machist.dev_status(),
                                    machist.link_adr(rng.below(6), rng.below(5), 7, 0)])
-            f = net.downlink(cmds, rng.choice([None, 5]), b"" if rng.chance(1, 2) else b"pp", confirmed=rng.chance(1, 2))
+            if keep:
+                # the application does not collect its downlinks: application payloads pile up in the queue (depth 8 in the MAC harness)
+                f = net.downlink(cmds, rng.range(1, 200), rng.bytes(rng.range(1, 6)), confirmed=rng.chance(1, 2))
+                net.ops[-1] = "rxk" + net.ops[-1][2:]
+            else:
+                f = net.downlink(cmds, rng.choice([None, 5]), b"" if rng.chance(1, 2) else b"pp", confirmed=rng.chance(1, 2))
             kept.append(f)
         else:
             net.rx2c()
@@ -85,6 +90,8 @@ def twin_pair(rng, region, length, classc):
         if classc and rng.chance(1, 3):
             twin.append("rxc %s 0 250" % core.hexs(rejected_frame(rng, net, kept)))
         both("snap")
+    if keep:
+        both("drain")
     return net.head + " | " + " | ".join(base), net.head + " | " + " | ".join(twin), pos
 
 
@@ -212,6 +219,8 @@ def run(rep, tier, rng):
         core.finish_proof_failures(rep)
         return
     pairs = [twin_pair(rng.fork("t%d" % i), i % 9, rng.range(4, 12), i % 2 == 0) for i in range(150 if tier == "quick" else 4000)]
+    # ... and histories in which the application leaves its downlinks uncollected (the queue fills up), drained at the end
+    pairs += [twin_pair(rng.fork("k%d" % i), i % 9, rng.range(9, 13), i % 2 == 0, keep=True) for i in range(45 if tier == "quick" else 600)]
     lines = [p[0] for p in pairs] + [p[1] for p in pairs]
     core.diff_stage(rep, "X:C07:mac-histories(twins)", lines, macstage.make_judge(["acted upon", "did not join", "not an authentic"]))
     # the 2-safety property itself, on the implementation alone: the twin's outputs at the base ops equal the base run's outputs
